@@ -1092,8 +1092,6 @@ def describe(case):
 
 def signature(case, out, why):
     t = case.split()
-    if t[0] == "caps" and t[1] == "D1" and t[2] == "S" and why and why.startswith("advertised eval_caps"):
-        return "c15-edge:F1"
     return "%s:%s:%s%s:%s" % (t[0], t[1], t[2], t[3], (why or "")[:40])
 
 
@@ -1106,21 +1104,6 @@ def model_covers(case):
     if t[1] in DERIV_FAMS and t[3] != "1":
         return False
     return True
-
-
-def install_known_findings():
-    """known findings of this property live in known_findings_C15.json (same format and matching rule as the shared
-    KNOWN_FINDINGS.json: property + signature, status open)"""
-    path = os.path.join(vlib.VERIF, "known_findings_C15.json")
-    orig = vlib.load_known
-
-    def load(prop):
-        lst = list(orig(prop))
-        if prop == PROP and os.path.exists(path):
-            data = json.load(open(path))
-            lst += [e for e in data.get("findings", []) if e.get("property") == prop and e.get("status") == "open"]
-        return lst
-    vlib.load_known = load
 
 
 def canon(out):
@@ -1170,7 +1153,6 @@ def main(argv):
         cases = [json.load(open(args.replay))["input"]]
     else:
         cases = CORPUS + fixed_cases() + gen_cases(rng, 1500 if args.tier == "quick" else 15000, args.tier)
-    install_known_findings()
     st = vlib.Stream("fe", cases, [binary], vlib.driver_cmd(PROP), oracle=oracle, nontrivial=nontrivial,
                      describe=describe, signature=signature, canon=canon,
                      model_filter=model_covers)
